@@ -169,11 +169,11 @@ def run(ctx):
     ctx.coq_props('Props/C07.v')
     gen_const.instance_obligations(ctx, 'C07', which=('tables',))
     q = ctx.tier == 'quick'
-    worldcheck.run_histories(ctx, 'C07', n_defsets=8 if q else 50, hist_per_set=3, sizes=[80, 250], dialects=('wows', 'wows126', 'wot'), regs_mode='single')
-    worldcheck.run_histories(ctx, 'C07', n_defsets=6 if q else 40, hist_per_set=3, sizes=[80, 250], dialects=('wows', 'wot', 'wows126'), regs_mode='multi')
+    worldcheck.run_histories(ctx, 'C07', n_defsets=12 if q else 50, hist_per_set=3, sizes=[80, 250], dialects=('wows', 'wows126', 'wot'), regs_mode='single')
+    worldcheck.run_histories(ctx, 'C07', n_defsets=10 if q else 40, hist_per_set=3, sizes=[80, 250], dialects=('wows', 'wot', 'wows126'), regs_mode='multi')
     # strict mode, no other faults: a garbage payload on a method nobody subscribed to (even when another entity type has a subscribed
     # method of the same name) must not stop the parse, one on a subscribed method must
-    worldcheck.run_histories(ctx, 'C07', n_defsets=6 if q else 40, hist_per_set=3, sizes=[60, 150], dialects=('wows', 'wot', 'wows126'), regs_mode='single',
+    worldcheck.run_histories(ctx, 'C07', n_defsets=10 if q else 40, hist_per_set=3, sizes=[60, 150], dialects=('wows', 'wot', 'wows126'), regs_mode='single',
                              fault_rate=0.0, strict_too=True, garbage_w=12)
     direct_tests(ctx)
     raising_subscribers(ctx)
